@@ -31,6 +31,13 @@ def run(ctx):
     ctx.cov["binding_selftest"].append({"corrupted": "one matched label map dropped", "rejected": len(m2) > 0})
     if not m2:
         raise vlib.Infra("binding self-test: corrupted selector line accepted")
+    # selectors have to survive the re-establishment of a remote watch: real gRPC connection, server stopped and started again,
+    # subscribers with ID and label selectors (driver and judge of C13's real-wire stage)
+    import importlib.util
+    spec13 = importlib.util.spec_from_file_location("c13", os.path.join(os.path.dirname(os.path.abspath(__file__)), "c13.py"))
+    c13 = importlib.util.module_from_spec(spec13)
+    spec13.loader.exec_module(c13)
+    c13.realwire(ctx, 2 if quick else 20)
     ctx.assumptions += ["curated string set (10 strings) with explicit lexical rank and numeric parse tables; the regexp engine is trusted (ID queries: all sites must agree with regexp.MatchString)"]
 
 
